@@ -244,6 +244,30 @@ Definition reshape (n : Z) (l : list Z) : option (list (list Z)) :=
 Definition lastz (l : list Z) : Z := last l 0.
 Definition set_last (l : list Z) (v : Z) : list Z := removelast l ++ [v].
 
+(* ---- the index / offset formulas of the code, by name.  Gen/C02.v regenerates each of them from /repo on every
+   run and Bridge/C02.v proves the regenerated formula equal to the one used here (theorem C02_source_tie). ---- *)
+Definition m_n_fields (e0 : Z) : Z := e0 + 1.                 (* _get_n_fields: entry_ends[0] + 1 *)
+Definition m_size (d_last : Z) : Z := d_last + 1.             (* from_raw_buffer: delimiters[entry_ends[-1]] + 1 *)
+Definition m_keep (e_last : Z) : Z := e_last + 1.             (* delimiters[:entry_ends[-1] + 1] *)
+Definition m_sentinel : Z := -1.                              (* np.insert(..., 0, -1) *)
+Definition m_start : Z -> Z := Z.add 1.                       (* starts = delimiters[:-1] + 1 *)
+Definition m_entry_end (e_last : Z) : Z := e_last + 1.        (* entry_ends = ends[:, -1] + 1, taken BEFORE the CR adjustment *)
+Definition m_entry_ends_before_cr : bool := true.
+Definition m_cr_probe (e : Z) : Z := e - 1.                   (* data[ends[.., -1] - 1] *)
+Definition m_cr_byte : Z := 13.
+Definition m_cr_adjust (e c : Z) : Z := e - (if c =? m_cr_byte then 1 else 0).   (* ends[:, -1] -= data[...] == '\r' *)
+Definition m_mida_n_fill (s e mx : Z) : Z := mx - (e - s).    (* max_chars - (ends - starts) cells get the fill value *)
+Definition m_mida_index (e mx j : Z) : Z := e - mx + j.       (* (ends - max_chars) + arange(max_chars) *)
+Definition m_keep_end (e : Z) : Z := e + 1.                   (* keep_sep: lens + 1 *)
+Definition m_pos_shift (v : Z) : Z := v - 1.                  (* VCF: val -= 1 for column 1 *)
+Definition m_pos_shift_col : Z := 1.
+Definition m_extra_start (e10 : Z) : Z := e10 + 1.            (* SAM: field_starts[:, -1] + field_lens[:, -1] + 1 *)
+Definition m_extra_len (ee st : Z) : Z := Z.max (ee - st - 1) 0.
+Definition m_line_len (k : Z) : Z := k + 1.                   (* has_field_mask: len(name) + 1 *)
+Definition m_ignored (s k size : Z) : bool := s + m_line_len k >=? size.
+Definition m_value_start (s k : Z) : Z := s + m_line_len k.
+Definition m_value_len (l k : Z) (keep : bool) : Z := l - m_line_len k + (if keep then 1 else 0).
+
 (* DelimitedBuffer._modify_for_carriage_return: decided from the first row, applied to every row *)
 Definition cr_adjust (data : list Z) (ends : list (list Z)) : list (list Z) :=
   match ends with
@@ -251,8 +275,8 @@ Definition cr_adjust (data : list Z) (ends : list (list Z)) : list (list Z) :=
   | r0 :: _ =>
       let e0 := lastz r0 in
       if (len data =? 0) || (e0 =? 0) then ends
-      else if nthZ data (e0 - 1) =? 13
-           then map (fun r => let e := lastz r in set_last r (e - (if py_get data (e - 1) =? 13 then 1 else 0))) ends
+      else if nthZ data (m_cr_probe e0) =? m_cr_byte
+           then map (fun r => let e := lastz r in set_last r (m_cr_adjust e (py_get data (m_cr_probe e)))) ends
            else ends
   end.
 
@@ -267,15 +291,16 @@ Definition delim_table (sep : Z) (chunk : list Z) : option table :=
   match ee with
   | [] => None
   | e0 :: _ =>
-      let n := e0 + 1 in
+      let n := m_n_fields e0 in
       let laste := lastz ee in
-      let size := nthZ delims laste + 1 in
-      let delims' := (-1) :: firstn (Z.to_nat (laste + 1)) delims in
+      let size := m_size (nthZ delims laste) in
+      let delims' := m_sentinel :: firstn (Z.to_nat (m_keep laste)) delims in
       let data := firstn (Z.to_nat size) chunk in
-      match reshape n (map (Z.add 1) (removelast delims')), reshape n (tl delims') with
+      match reshape n (map m_start (removelast delims')), reshape n (tl delims') with
       | Some s, Some e =>
           let e' := cr_adjust data e in
-          Some {| t_data := data; t_starts := s; t_ends := e'; t_eends := map (fun r => lastz r + 1) e' |}
+          Some {| t_data := data; t_starts := s; t_ends := e';
+                  t_eends := map (fun r => m_entry_end (lastz r)) (if m_entry_ends_before_cr then e else e') |}
       | _, _ => None
       end
   end.
@@ -366,7 +391,7 @@ Definition bounds (t : table) (j : Z) : list (Z * Z) := combine (col (t_starts t
 Definition text_at (data : list Z) (se : Z * Z) : list Z := slice (fst se) (snd se) data.
 Definition texts (t : table) (j : Z) : list (list Z) := map (text_at (t_data t)) (bounds t j).
 (* keep_sep=True: one more byte *)
-Definition texts_sep (t : table) (j : Z) : list (list Z) := map (fun se => slice (fst se) (snd se + 1) (t_data t)) (bounds t j).
+Definition texts_sep (t : table) (j : Z) : list (list Z) := map (fun se => slice (fst se) (m_keep_end (snd se)) (t_data t)) (bounds t j).
 
 (* AlphabetEncoding("0123456789") as used by strops: the lower-case table is alphabet+32, so 'P'..'Y' also pass *)
 Definition digit_val (c : Z) : option Z :=
@@ -381,7 +406,7 @@ Definition dot_pow (ds : list Z) : Z :=
 Definition max_len (bs : list (Z * Z)) : Z := fold_right Z.max 0 (map (fun se => snd se - fst se) bs).
 Definition digit_matrix (data : list Z) (bs : list (Z * Z)) : list (list Z) :=
   let mx := max_len bs in
-  map (fun se => map (fun j => if j <? mx - (snd se - fst se) then 48 else py_get data (snd se - mx + j)) (arange mx)) bs.
+  map (fun se => map (fun j => if j <? m_mida_n_fill (fst se) (snd se) mx then 48 else py_get data (m_mida_index (snd se) mx j)) (arange mx)) bs.
 
 (* str_to_int on ragged text: a flagged first byte is overwritten with '0' *)
 Definition str_to_int_flag (neg pos : bool) (txt : list Z) : option Z :=
@@ -468,14 +493,14 @@ Definition typed_col (t : table) (j : Z) (ty : ctype) : colres :=
   | TStr => Col (map CBytes (texts t j))
   | TSid => sid_col (texts t j)
   | TInt => opt_col CInt (parse_int_col data (bounds t j))
-  | TIntM1 => opt_col (fun v => CInt (v - 1)) (parse_int_col data (bounds t j))
+  | TIntM1 => opt_col (fun v => CInt (m_pos_shift v)) (parse_int_col data (bounds t j))
   | TOptInt => opt_col CInt (parse_with_missing_cur 0 str_to_int_auto (texts t j))
   | TFloat => opt_col rat_cell (mapM str_to_float1 (texts t j))
   | TStrand => opt_col CBytes (mapM (mapM strand_sym) (texts t j))
   | TQual => Col (map (fun x => CInts (map (fun c => c - 33) x)) (texts t j))
   | TIntList => opt_col CInts (parse_split_cur str_to_int_auto (texts_sep t j))
   | TRest =>   (* SAMBufferExctractor._get_extra_field *)
-      Col (map (fun '(se, ee) => let st := snd se + 1 in CBytes (slice st (st + Z.max (ee - st - 1) 0) data))
+      Col (map (fun '(se, ee) => let st := m_extra_start (snd se) in CBytes (slice st (st + m_extra_len ee st) data))
                (combine (bounds t 10) (t_eends t)))
   end.
 
@@ -490,11 +515,11 @@ Fixpoint items_from (start : Z) (cur : Z) (l : list Z) : list (Z * Z) :=
 Fixpoint item_table (off : Z) (rows : list (list Z)) : list (list (Z * Z)) :=
   match rows with [] => [] | r :: rs => items_from off off r :: item_table (off + len r) rs end.
 Definition key_mask (flat : list Z) (key : list Z) (it : Z * Z) : bool :=
-  let L := len key + 1 in
-  (fst it + L <? len flat) && zlist_eqb (slice (fst it) (fst it + L) flat) (key ++ [61]).
+  let L := m_line_len (len key) in
+  negb (m_ignored (fst it) (len key) (len flat)) && zlist_eqb (slice (fst it) (fst it + L) flat) (key ++ [61]).
 (* has_field_mask walks back from the last item while start+L >= size; when it runs out of items it raises *)
 Definition all_ignored (flat : list Z) (key : list Z) (tab : list (list (Z * Z))) : bool :=
-  forallb (fun it => len flat <=? fst it + len key + 1) (concat tab).
+  forallb (fun it => m_ignored (fst it) (len key) (len flat)) (concat tab).
 (* >>> after notes/C02.fix-3.diff is applied, change to false <<< *)
 Definition short_buffer_raises : bool := false.
 Definition info_texts (keep_sep : bool) (flat key : list Z) (tab : list (list (Z * Z))) : option (list (list Z)) :=
@@ -502,8 +527,8 @@ Definition info_texts (keep_sep : bool) (flat key : list Z) (tab : list (list (Z
   else if existsb (fun row => 1 <? len (filter (key_mask flat key) row)) tab then None   (* key twice in a row *)
   else Some (map (fun row =>
          match filter (key_mask flat key) row with
-         | it :: _ => let L := len key + 1 in
-                      slice (fst it + L) (fst it + L + (snd it - L + (if keep_sep then 1 else 0))) flat
+         | it :: _ => let st := m_value_start (fst it) (len key) in
+                      slice st (st + m_value_len (snd it) (len key) keep_sep) flat
          | [] => []
          end) tab).
 Definition has_flag (flat key : list Z) (tab : list (list (Z * Z))) : list bool :=
